@@ -4,6 +4,7 @@ DELEGATECALL / STATICCALL of the reference EVM, and with it one whole step of th
 directions.
 -/
 import HalmosVerif.Lemmas.SevmCallRel
+import HalmosVerif.Lemmas.SevmCallHsto
 import HalmosVerif.Lemmas.SevmCallBal
 
 set_option linter.unusedSectionVars false
@@ -13,75 +14,6 @@ set_option maxRecDepth 2000
 
 namespace HalmosVerif.Lemmas.Sevm
 open HalmosVerif.Model HalmosVerif.Model.Sevm HalmosVerif.Spec HalmosVerif.Lemmas.Word
-
-/-! ### helpers -/
-
-section
-variable {I : Interp} {s : Simp}
-
-/-- `uint160(peek(2))` returned the literal `k`: the masked concrete word -/
-theorem reBV160_con (hs : SimpSound s) {v : HV} {n : Nat} (hw : WordRel I v n) {sz k : Nat}
-    (h : reBV s v 160 = .bv sz (.con k)) : k = n % 2 ^ 160 ∧ k < 2 ^ 160 := by
-  cases v with
-  | bv size r =>
-    obtain ⟨r', e, wf, d⟩ := (reBV_bv_ok hs I (by decide : 0 < 160) hw.1).ok_inj
-    rw [h] at e
-    cases e
-    exact ⟨by rw [← hw.2.2, ← d]; rfl, wf.2⟩
-  | bool r =>
-    obtain ⟨r', e, wf, d⟩ := (reBV_bool_ok hs I (by decide : 0 < 160) hw.1).ok_inj
-    rw [h] at e
-    cases e
-    have hk : k = n := by rw [← hw.2.2, ← d]; rfl
-    exact ⟨by rw [← hk]; exact (Nat.mod_eq_of_lt wf.2).symm, wf.2⟩
-
-/-- a word of the callee's calldata -/
-theorem wordOfBytes_rel (hs : SimpSound s) {bs : List T} (hb : ∀ b ∈ bs, b.WF ∧ b.width = 8)
-    (hlen : bs.length = 32) :
-    (s.t (wordOfBytes bs)).WF ∧ (s.t (wordOfBytes bs)).width = 256 ∧
-      (s.t (wordOfBytes bs)).eval I = Evm.bytesToNat (bs.map (·.eval I)) := by
-  have key : (wordOfBytes bs).WF ∧ (wordOfBytes bs).width = 256 ∧
-      (wordOfBytes bs).eval I = Evm.bytesToNat (bs.map (·.eval I)) := by
-    unfold wordOfBytes
-    cases hl : litBytes? bs with
-    | some ns =>
-      obtain ⟨h1, h2⟩ := litBytes_ok (I := I) hl
-      simp only
-      refine ⟨(by decide : 0 < 256), rfl, ?_⟩
-      rw [h2]
-      have := bytesToNat_lt ns
-      rw [h1, hlen] at this
-      exact Nat.mod_eq_of_lt (Nat.lt_of_lt_of_le this (by norm_num))
-    | none =>
-      simp only
-      match bs, hlen, hb with
-      | b :: rest, hlen, hb =>
-        obtain ⟨bwf, bw⟩ := hb b (List.mem_cons_self ..)
-        obtain ⟨h1, h2, h3⟩ := concat_foldl_ok (I := I) rest b bwf (fun x hx => hb x (List.mem_cons_of_mem _ hx))
-        refine ⟨h1, ?_, ?_⟩
-        · simp only [concatBytes, h2, bw]
-          simp only [List.length_cons] at hlen
-          omega
-        · simp only [concatBytes, h3, Evm.bytesToNat, List.map_cons, List.foldl_cons]
-          have hlt := T.eval_lt I b bwf
-          rw [bw] at hlt
-          rw [Nat.mod_eq_of_lt hlt]; norm_num
-  exact ⟨hs.wfT _ key.1, (hs.widthT _ key.1).trans key.2.1, (hs.evalT I _ key.1).trans key.2.2⟩
-
-theorem MemRel.getD {sm : List T} {cm : List Nat} (h : MemRel I sm cm) (i : Nat) :
-    ((sm[i]?).getD zeroByte).WF ∧ ((sm[i]?).getD zeroByte).width = 8 ∧
-      ((sm[i]?).getD zeroByte).eval I = (cm[i]?).getD 0 := by
-  obtain ⟨hwf, hm⟩ := h
-  subst hm
-  by_cases hi : i < sm.length
-  · have : sm[i]? = some sm[i] := List.getElem?_eq_getElem hi
-    simp only [this, Option.getD_some, List.getElem?_map, Option.map_some]
-    exact ⟨(hwf _ (List.getElem_mem hi)).1, (hwf _ (List.getElem_mem hi)).2, trivial⟩
-  · have : sm[i]? = none := List.getElem?_eq_none (by omega)
-    simp only [this, Option.getD_none, List.getElem?_map, Option.map_none]
-    exact zeroByte_ok I
-
-end
 
 /-! ### the operands of a call -/
 
@@ -644,14 +576,6 @@ end
 /-! ### SHA3 -/
 
 theorem isShaOp_iff (op : Nat) : isShaOp op = true ↔ op = 0x20 := by simp [isShaOp]
-
-/-- the valuation interprets `f_sha3_<8n>` as the reference's hash of the `n` bytes (`f_sha3_0`: of no bytes), and
-    the model hashes concrete data with the reference's hash -/
-structure ShaInterp (I : Interp) (p : Evm.Params) (cfg : Cfg) : Prop where
-  empty : I.bv "f_sha3_0" 256 % 2 ^ 256 = p.keccak [] % Evm.W
-  app : ∀ bs : List Nat, (∀ b ∈ bs, b < 256) → bs ≠ [] →
-    I.uf1 (shaName (8 * bs.length)) 256 (Evm.bytesToNat bs) % 2 ^ 256 = p.keccak bs % Evm.W
-  conc : ∀ bs : List Nat, (∀ b ∈ bs, b < 256) → cfg.keccak bs % 2 ^ 256 = p.keccak bs % Evm.W
 
 /-- the conditions `sha3_data` appends at this state are true under `I` (they are assumptions — the digest is
     non-zero and at most 2^256 − 2^64, `f_inv_sha3_*` invert the hash on its low 160 bits —, not consequences) -/
@@ -1870,12 +1794,12 @@ theorem hFlat_filter_acct (I : Interp) (p : Evm.Params) (chain : List HCell) (ad
 
 theorem HRel.createWorld {p : Evm.Params} {w' : Evm.World} {chain : List HCell} (h : HRel I p S w' chain)
     (me addr val : Nat) : HRel I p S (createWorld w' me addr val) (chain.filter (fun c => c.acct != addr)) := by
-  intro a ha slot hge
+  refine ⟨fun c hc => h.1 c (List.mem_filter.1 hc).1, fun a ha slot hge => ?_⟩
   show Evm.lookupD (w'.storage.filter _) (a, slot) = _
   rw [lookupD_filter_acct, hFlat_filter_acct]
   by_cases e : a = addr
   · simp only [if_pos e]
-  · simp only [if_neg e]; exact h a ha slot hge
+  · simp only [if_neg e]; exact h.2 a ha slot hge
 
 /-- the constructor frame `SEVM.create` starts against the frame the reference starts: `csx` is the creator at the
     CREATE (attempt counted, value moved), `g` the concrete creator with the operands popped and the memory touched,
@@ -2721,10 +2645,6 @@ end
 
 /-! ### storage cells at hashed locations: cell level -/
 
-/-- keys and values are well-formed 256-bit terms -/
-def HChainWF (chain : List HCell) : Prop :=
-  ∀ c ∈ chain, c.key.WF ∧ c.key.width = 256 ∧ c.val.WF ∧ c.val.width = 256
-
 /-- no other cell written on the path lies at the location of `m[k]` (mapping at `base` of `acct`): a cell of the
     same account at the same location is the same cell -/
 def HNoColl (I : Interp) (p : Evm.Params) (chain : List HCell) (acct kind base : Nat) (k : T) : Prop :=
@@ -2849,18 +2769,14 @@ variable {I : Interp} {p : Evm.Params} {S : Nat → Prop} {w0 : Evm.World}
 variable {cs : CState} {w : Evm.World} {f : Evm.Frame} {kcs : List CCont}
 variable {s : Simp} {o : Oracle} {cfg : Cfg}
 
-/-- what the simulation of a hashed SLOAD / SSTORE assumes at the state `cs` (PARTIAL: the first two clauses are facts
-    about the model that are not proved here, the last two are the assumptions on the hash): for the location `kv` on
-    top of the stack, decoded as the cell `(kind, base, key)`:
-      * the key is a well-formed 256-bit term and the chain of writes is well-formed;
-      * the location denotes `hLoc` of the cell — Keccak-256 of key ‖ base, resp. of base plus the index — (the tie
-        between `decodeSlot` and the term `f_sha3_*`, under `ShaInterp`; see `sha512_eval`);
-      * that location is not a plain slot (it is at least 2^64);
-      * no other cell written on the path lies there (`HNoColl`). -/
+/-- what the simulation of a hashed SLOAD / SSTORE assumes at the state `cs`: for the location `kv` on top of the
+    stack, decoded as the cell `(kind, base, key)` (whose location is `hLoc` of the cell — Keccak-256 of key ‖ base,
+    resp. of base plus the index —, `decodeSlot_ok`):
+      * the location is not a plain slot (it is at least 2^64; an assumption on the hash, as `ShaOK`);
+      * no other cell written on the path lies there (`HNoColl`; Keccak-256 collision freedom on the keys met). -/
 def HstoOK (I : Interp) (p : Evm.Params) (s : Simp) (cfg : Cfg) (cs : CState) : Prop :=
   cfg.hsto = true → ∀ kv rest kind base key, cs.st.stack = kv :: rest →
     decodeSlot s cs.st.path kv = some (kind, base, key) →
-      key.WF ∧ key.width = 256 ∧ HChainWF cs.hsto ∧ kv.denote I = hLoc p kind (key.eval I) base ∧
       2 ^ 64 ≤ hLoc p kind (key.eval I) base ∧ HNoColl I p cs.hsto cs.this kind base key
 
 theorem hstoOK_off (h : cfg.hsto = false) : HstoOK I p s cfg cs := by
@@ -2881,10 +2797,13 @@ theorem WRelM.hstore {v : Nat → AcctSto} {lg : List (Nat × List Nat × List N
 
 /-- and extends the chain of cells -/
 theorem HRel.hstore {chain : List HCell} (h : HRel I p S w chain) (c : HCell) {n : Nat}
-    (hn : c.val.eval I = n) :
+    (hn : c.val.eval I = n) (hcw : c.key.WF ∧ c.key.width = 256 ∧ c.val.WF ∧ c.val.width = 256) :
     HRel I p S { w with storage := Evm.insert w.storage (c.acct, hLoc p c.kind (c.key.eval I) c.base) n }
       (c :: chain) := by
-  intro b hb slot hge
+  refine ⟨fun x hx => ?_, fun b hb slot hge => ?_⟩
+  · rcases List.mem_cons.1 hx with rfl | hx
+    · exact hcw
+    · exact h.1 x hx
   show Evm.lookupD (Evm.insert w.storage _ n) (b, slot) = _
   rw [lookupD_insert]
   simp only [hFlat]
@@ -2893,13 +2812,31 @@ theorem HRel.hstore {chain : List HCell} (h : HRel I p S w chain) (c : HCell) {n
     rw [if_pos e, if_pos ⟨e1.symm, e2.symm⟩, hn]
   · have : ¬ (c.acct = b ∧ hLoc p c.kind (c.key.eval I) c.base = slot) := by
       rintro ⟨h1, h2⟩; exact e (by rw [h1, h2])
-    rw [if_neg e, if_neg this]; exact h b hb slot hge
+    rw [if_neg e, if_neg this]; exact h.2 b hb slot hge
 
-/-- **SLOAD / SSTORE at a mapping or array location, soundness** (under `HstoOK`) -/
-theorem hstoOut_sound (hs : SimpSound s) (ho : OracleSound o) (hok : HstoOK I p s cfg cs)
+/-- the valuation reads the arrays of the empty storage (`storage_<acct>_<base>_<kind>_00`) as zero everywhere: what the
+    condition `load` appends for each key says, and what `ZeroStorage` says of the start world -/
+def HEmptyZero (I : Interp) : Prop :=
+  ∀ acct kind base k, I.uf1 (hEmptyName acct kind base) 256 k % 2 ^ 256 = 0
+
+/-- SLOAD / SSTORE at a mapping or array location on the reference side: an exceptional halt of the running concrete
+    frame (a write in a static frame), or one successor whose path is the old one with the conditions `c` (the
+    emptiness condition of a load), related — when they hold — to a concrete configuration with exactly the same
+    completions; under `G` they hold -/
+def HstoCorr (I : Interp) (p : Evm.Params) (S : Nat → Prop) (w0 : Evm.World) (G : Prop) (cs : CState)
+    (w : Evm.World) (f : Evm.Frame) (kcs : List CCont) (lo : LocalOut) : Prop :=
+  (∃ h, lo = localHalt cs.st h ∧ haltWith h [] = h ∧ Evm.step p w f = .halt w h) ∨
+  (∃ (cs' : CState) (w' : Evm.World) (f' : Evm.Frame) (c : List B),
+      lo = { next := [cs'] } ∧ (Sat I cs'.st.path ↔ Sat I cs.st.path ∧ ∀ x ∈ c, x.eval I = true) ∧
+      ((∀ x ∈ c, x.eval I = true) → RelC I p S w0 cs' w' f' kcs) ∧
+      (∀ r, RunStack p w f kcs r ↔ RunStack p w' f' kcs r) ∧ (BalBound w → BalBound w') ∧
+      (G → ∀ x ∈ c, x.eval I = true))
+
+/-- **SLOAD / SSTORE at a mapping or array location** (under `HstoOK`) -/
+theorem hstoOut_corr (hs : SimpSound s) (ho : OracleSound o) (hsi : ShaInterp I p cfg) (hok : HstoOK I p s cfg cs)
     (hrel : RelC I p S w0 cs w f kcs) (hsat : Sat I cs.st.path) {op : Nat} (hop : opAt cs.code cs.st.pc = op)
     (hsop : op = 0x54 ∨ op = 0x55) (hl : ¬ cs.st.stack.length > 1024) {lo : LocalOut}
-    (h : hstoOut s o cfg cs op = some lo) : LocalSound I p S w0 cs w f kcs lo := by
+    (h : hstoOut s o cfg cs op = some lo) : HstoCorr I p S w0 (HEmptyZero I) cs w f kcs lo := by
   have hR := hrel.hR
   have hopc : (f.code[f.pc]?).getD 0 = op := hR.op_eq.trans hop
   have hlen := hR.stack.length
@@ -2927,26 +2864,37 @@ theorem hstoOut_sound (hs : SimpSound s) (ho : OracleSound o) (hok : HstoOK I p 
         rw [hd] at h
         simp only [Option.some.injEq] at h
         subst h
-        obtain ⟨kwf, kw, hcw, htie, hge, hnc⟩ := hok hcfg kv rest kind base key hstk hd
+        obtain ⟨hge, hnc⟩ := hok hcfg kv rest kind base key hstk hd
+        have hcw := hrel.hH.1
         have hs0 := hR.stack
         rw [hstk] at hs0
         obtain ⟨n, crest, hc1, hwn, hrest⟩ := hs0.cons_inv
-        have hn : n = hLoc p kind (key.eval I) base := by rw [← hwn.2.2]; exact htie
+        obtain ⟨kwf, kw, hn⟩ := decodeSlot_ok hs hsi hsat hwn hd
         have hstep := evm_sload (p := p) (w := w) hopc hlc
         simp only [Evm.op1, hc1] at hstep
         have haxwf : (B.cmp .eq (.uf1 (hEmptyName cs.this kind base) 256 key) (.lit 256 0)).WF :=
           ⟨⟨(by decide : 0 < 256), kwf⟩, (by decide : 0 < 256), rfl⟩
-        refine ⟨fun cs' hm hsat' => ?_, fun e hm => by simp at hm⟩
-        simp only [List.mem_singleton] at hm
-        subst hm
-        have hsx : Sat I (addCond s { cs.st with stack := rest }
-            (.cmp .eq (.uf1 (hEmptyName cs.this kind base) 256 key) (.lit 256 0))).path := hsat'
-        obtain ⟨_, hax⟩ := (addCond_sat hs haxwf).1 hsx
+        have hsatiff : Sat I (addCond s { cs.st with stack := rest }
+            (.cmp .eq (.uf1 (hEmptyName cs.this kind base) 256 key) (.lit 256 0))).path ↔
+            Sat I cs.st.path ∧ ∀ x ∈ [B.cmp .eq (.uf1 (hEmptyName cs.this kind base) 256 key) (.lit 256 0)],
+              x.eval I = true := by
+          rw [addCond_sat hs haxwf]
+          simp only [List.mem_singleton, forall_eq]
+        have hez : HEmptyZero I → ∀ x ∈ [B.cmp .eq (.uf1 (hEmptyName cs.this kind base) 256 key) (.lit 256 0)],
+            x.eval I = true := by
+          intro hz x hx
+          rw [List.mem_singleton.1 hx]
+          have := hz cs.this kind base (key.eval I)
+          simp only [B.eval, CmpOp.eval, T.eval, beq_iff_eq]
+          simpa using this
+        refine Or.inr ⟨_, w, _, [.cmp .eq (.uf1 (hEmptyName cs.this kind base) 256 key) (.lit 256 0)], rfl, hsatiff,
+          fun hcs => ?_, fun r => runStack_next hstep kcs r, id, hez⟩
+        have hax := hcs _ (List.mem_singleton.2 rfl)
+        have hsx := hsatiff.2 ⟨hsat, hcs⟩
         have he : I.uf1 (hEmptyName cs.this kind base) 256 (key.eval I) % 2 ^ 256 = 0 := by
           simp only [B.eval, CmpOp.eval, T.eval, beq_iff_eq] at hax
           simpa using hax
         obtain ⟨v1, v2, v3⟩ := hSelect_ok (p := p) hs ho hsx hcw kwf kw hnc he
-        refine ⟨w, _, kcs, ?_, fun r hr => (runStack_next hstep kcs r).2 hr⟩
         refine hrel.withConds hs (conds := [.cmp .eq (.uf1 (hEmptyName cs.this kind base) 256 key) (.lit 256 0)])
           (fun c hc => by rw [List.mem_singleton.1 hc]; exact haxwf) (X := { cs.st with stack := rest })
           (st' := pushTerm s (addCond s { cs.st with stack := rest } _) _) rfl rfl rfl rfl
@@ -2958,7 +2906,7 @@ theorem hstoOut_sound (hs : SimpSound s) (ho : OracleSound o) (hok : HstoOK I p 
           have hval : (hSelect s o (addCond s { cs.st with stack := rest }
               (.cmp .eq (.uf1 (hEmptyName cs.this kind base) 256 key) (.lit 256 0))).path cs.this kind base cs.hsto
               key).eval I = Evm.lookupD w.storage (f.this, n) := by
-            rw [v3, hn, hrel.this]; exact (hrel.hH cs.this hrel.inS _ hge).symm
+            rw [v3, hn, hrel.this]; exact (hrel.hH.2 cs.this hrel.inS _ hge).symm
           exact StackRel.cons (wordRel_mkBV hs v1 (by rw [hval]; rfl)) hrest
         · show MemRel I (addCond s { cs.st with stack := rest } _).mem f.mem
           rw [addCond_mem]; exact hR.mem
@@ -2981,26 +2929,19 @@ theorem hstoOut_sound (hs : SimpSound s) (ho : OracleSound o) (hok : HstoOK I p 
           obtain ⟨kind, base, key⟩ := kbk
           rw [hd] at h
           simp only at h
-          obtain ⟨kwf, kw, hcw, htie, hge, hnc⟩ := hok hcfg kv (v :: rest) kind base key hstk hd
+          obtain ⟨hge, hnc⟩ := hok hcfg kv (v :: rest) kind base key hstk hd
           by_cases hstat : cs.env.isStatic = true
           · rw [if_pos hstat] at h
             simp only [Option.some.injEq] at h
             subst h
-            refine ⟨fun cs' hm _ => by simp [localHalt] at hm, fun e hm => ?_⟩
-            simp only [localHalt, List.mem_singleton] at hm
-            subst hm
-            refine ⟨⟨rfl, rfl, rfl, rfl⟩, fun _ h' ho' => ?_⟩
-            simp only [Out.halt.injEq] at ho'
-            subst ho'
-            exact ⟨conc_store_static hR (by omega) hop (Or.inl rfl) hstk hstat,
-              fun b hb => absurd hb List.not_mem_nil⟩
+            exact Or.inl ⟨_, rfl, rfl, conc_store_static hR (by omega) hop (Or.inl rfl) hstk hstat⟩
           · rw [if_neg hstat] at h
             have hs0 := hR.stack
             rw [hstk] at hs0
             obtain ⟨n, c1, hc1, hwn, hs1⟩ := hs0.cons_inv
             obtain ⟨cv, crest, hc2, hwv, hrest⟩ := hs1.cons_inv
             subst hc2
-            have hn : n = hLoc p kind (key.eval I) base := by rw [← hwn.2.2]; exact htie
+            obtain ⟨kwf, kw, hn⟩ := decodeSlot_ok hs hsi hsat hwn hd
             have hfs : ¬ f.isStatic = true := by rw [← hR.env.isStatic]; exact hstat
             have hstep := evm_sstore (p := p) (w := w) hopc hlc hc1
             rw [if_neg hfs] at hstep
@@ -3010,16 +2951,16 @@ theorem hstoOut_sound (hs : SimpSound s) (ho : OracleSound o) (hok : HstoOK I p 
             subst h
             obtain ⟨z1, z2, z3⟩ := asZ3_ok (I := I) wf
             have hval : (asZ3 256 r').eval I = cv := by rw [z3, d, hwv.2.2]
-            refine ⟨fun cs' hm _ => ?_, fun e hm => by simp at hm⟩
-            simp only [List.mem_singleton] at hm
-            subst hm
             have hkey : (f.this, n) = (cs.this, hLoc p kind (key.eval I) base) := by rw [hrel.this, hn]
             rw [hkey] at hstep
-            refine ⟨_, _, kcs, ?_, fun r hr => (runStack_next hstep kcs r).2 hr⟩
-            have hHn := hrel.hH.hstore { acct := cs.this, kind, base, key, val := asZ3 256 r' } hval
+            refine Or.inr ⟨_, _, _, [], rfl, ⟨fun hx => ⟨hx, fun x hx' => absurd hx' List.not_mem_nil⟩, fun hx => hx.1⟩,
+              fun _ => ?_, fun r => runStack_next hstep kcs r, fun hb => hb.congr (fun a => rfl),
+              fun _ x hx' => absurd hx' List.not_mem_nil⟩
+            have hHn := hrel.hH.hstore { acct := cs.this, kind, base, key, val := asZ3 256 r' } hval ⟨kwf, kw, z1, z2⟩
             refine ⟨hR.next' sc! rfl rfl rfl rfl rfl (by show f.pc + 1 = _; rw [hR.pc]) hrest, hrel.this, hrel.inS,
               hrel.depth, hrel.hcode, ?_, hrel.hbal, hrel.hcr, hHn, hrel.conts⟩
             exact (hrel.hW.hstore (n := cv) hrel.inS hge).congr (fun a _ => rfl)
+
 
 end
 
@@ -3413,6 +3354,31 @@ theorem ExtCorr.complete (hs : SimpSound s) (ho : OracleSound o) (hrel : RelC I 
   · exact h.complete hrel hsat hrun hbb
   · exact local_corr_complete hs ho hrel hsat hrun hbb hc hsh
 
+theorem HstoCorr.sound {G : Prop} {lo : LocalOut} (h : HstoCorr I p S w0 G cs w f kcs lo) :
+    LocalSound I p S w0 cs w f kcs lo := by
+  rcases h with hh | ⟨cs', w', f', c, rfl, hp, hrel', hiff, _, _⟩
+  · exact CallCorr.sound (Or.inr (Or.inl hh))
+  · refine ⟨fun cs1 hm hsat' => ?_, fun e' hm => by simp at hm⟩
+    simp only [List.mem_singleton] at hm
+    subst hm
+    exact ⟨w', f', kcs, hrel' (hp.1 hsat').2, fun r hr => (hiff r).2 hr⟩
+
+theorem HstoCorr.complete {G : Prop} {lo : LocalOut} (h : HstoCorr I p S w0 G cs w f kcs lo)
+    (hrel : RelC I p S w0 cs w f kcs) (hsat : Sat I cs.st.path) {r : Evm.World × Evm.Halt}
+    (hrun : RunStack p w f kcs r) {C : Prop} (hG : G) (hbb : BBAll C w kcs) :
+    LocalComplete I p S w0 C cs w f r lo := by
+  rcases h with hh | ⟨cs', w', f', c, rfl, hp, hrel', hiff, hbw, htrue⟩
+  · exact CallCorr.complete (Or.inr (Or.inl hh)) hrel hsat hrun hbb
+  · exact Or.inl ⟨cs', by simp, hp.2 ⟨hsat, htrue hG⟩, w', f', kcs, hrel' (htrue hG), (hiff r).1 hrun,
+      fun hC => ⟨hbw (hbb hC).1, (hbb hC).2⟩⟩
+
+/-- **SLOAD / SSTORE at a mapping or array location, soundness** (under `HstoOK`) -/
+theorem hstoOut_sound (hs : SimpSound s) (ho : OracleSound o) (hsi : ShaInterp I p cfg) (hok : HstoOK I p s cfg cs)
+    (hrel : RelC I p S w0 cs w f kcs) (hsat : Sat I cs.st.path) {op : Nat} (hop : opAt cs.code cs.st.pc = op)
+    (hsop : op = 0x54 ∨ op = 0x55) (hl : ¬ cs.st.stack.length > 1024) {lo : LocalOut}
+    (h : hstoOut s o cfg cs op = some lo) : LocalSound I p S w0 cs w f kcs lo :=
+  (hstoOut_corr hs ho hsi hok hrel hsat hop hsop hl h).sound
+
 /-- with balances switched off a value-bearing call is an error report -/
 theorem callGo_some_off (hbal : ¬ cfg.balances = true) {op t : Nat} {fv : T} {ao al ro rl : Nat} {rest : List HV} :
     CallCorr I p S w0 cs w f kcs (callGo s o cfg codes cs op t (some fv) ao al ro rl rest) := by
@@ -3573,7 +3539,7 @@ theorem stepC_sound (hs : SimpSound s) (hI : I.Std) (hmem : cfg.maxMem + 32 ≤ 
     (hcb : ∀ a prog, codeOf codes a = some prog → ∀ b ∈ prog, b < 256)
     (hob : cfg.balances = true → OracleSound o ∧ BalHyp I cfg w0)
     (hsi : cfg.sha3 = true → ShaInterp I p cfg) (hch : CreateHyp cfg p S w0)
-    (hoh : cfg.hsto = true → OracleSound o) (hok : HstoOK I p s cfg cs)
+    (hoh : cfg.hsto = true → OracleSound o ∧ cfg.sha3 = true) (hok : HstoOK I p s cfg cs)
     (hrel : RelC I p S w0 cs w f kcs) (hsat : Sat I cs.st.path) :
     (∀ cs' ∈ (stepC s o cfg codes cs).next, Sat I cs'.st.path → ∃ w' f' kcs', RelC I p S w0 cs' w' f' kcs' ∧
         ∀ r, RunStack p w' f' kcs' r → RunStack p w f kcs r) ∧
@@ -3656,7 +3622,7 @@ theorem stepC_sound (hs : SimpSound s) (hI : I.Std) (hmem : cfg.maxMem + 32 ≤ 
                 · rename_i hso
                   have hsop : opAt cs.code cs.st.pc = 0x54 ∨ opAt cs.code cs.st.pc = 0x55 := by
                     simpa [isStoOp] using hso
-                  exact finish_sound hrel hsat (hstoOut_sound hs (hoh hcfg) hok hrel hsat rfl hsop hl hp)
+                  exact finish_sound hrel hsat (hstoOut_sound hs (hoh hcfg).1 (hsi (hoh hcfg).2) hok hrel hsat rfl hsop hl hp)
                 · cases hp
 
 /-- **stepC_complete.** -/
@@ -3665,15 +3631,16 @@ theorem stepC_complete (hs : SimpSound s) (ho : OracleSound o) (hI : I.Std) (hme
     (hS : ∀ a prog, codeOf codes a = some prog → S a)
     (hcb : ∀ a prog, codeOf codes a = some prog → ∀ b ∈ prog, b < 256)
     (hb : cfg.balances = true → BalHyp I cfg w0)
-    (hsi : cfg.sha3 = true → ShaInterp I p cfg) (hsok : ShaOK I s cfg cs) (hch : CreateHyp cfg p S w0) (hnh : cfg.hsto = false)
+    (hsi : cfg.sha3 = true → ShaInterp I p cfg) (hsok : ShaOK I s cfg cs) (hch : CreateHyp cfg p S w0)
+    (hoh : cfg.hsto = true → cfg.sha3 = true ∧ HEmptyZero I) (hok : HstoOK I p s cfg cs)
     (hrel : RelC I p S w0 cs w f kcs) (hsat : Sat I cs.st.path) {r : Evm.World × Evm.Halt}
     (hrun : RunStack p w f kcs r) (hbb : BBAll (cfg.balances = true) w kcs) :
     (∃ cs' ∈ (stepC s o cfg codes cs).next, Sat I cs'.st.path ∧ ∃ w' f' kcs', RelC I p S w0 cs' w' f' kcs' ∧
         RunStack p w' f' kcs' r ∧ BBAll (cfg.balances = true) w' kcs') ∨
-    (∃ ce ∈ (stepC s o cfg codes cs).ends, EndCoversC I S w0 r ce) ∨
+    (∃ ce ∈ (stepC s o cfg codes cs).ends, EndCoversC I p S w0 r ce) ∨
     (stepC s o cfg codes cs).bounded ≠ [] := by
   obtain ⟨hcodes', hS', hcb'⟩ := dyn_codes (cfg := cfg) hcodes hS hcb hrel
-  rw [stepC_eq, hstoPick_off hnh]
+  rw [stepC_eq]
   split
   · rename_i hc
     have hop : opAt cs.code cs.st.pc = 0xf0 := (isCreateOp_iff _).1 hc.2
@@ -3735,7 +3702,25 @@ theorem stepC_complete (hs : SimpSound s) (ho : OracleSound o) (hI : I.Std) (hme
             exact finish_complete hrel hsat hrun hbb
               ((extOut_corr (o := o) hs hmem hcodes' hcb' hrel hsat rfl ((isExtOp_iff _).1 hc.2) hc.1).complete hs ho
                 hrel hsat hrun hbb)
-          · exact finish_complete hrel hsat hrun hbb (local_step_complete hs ho hI hmem hrel hsat hrun hbb)
+          · cases hp : hstoPick s o cfg cs with
+            | none => exact finish_complete hrel hsat hrun hbb (local_step_complete hs ho hI hmem hrel hsat hrun hbb)
+            | some lo =>
+              have hcfg : cfg.hsto = true := by
+                cases hc : cfg.hsto
+                · rw [hstoPick_off hc] at hp; cases hp
+                · rfl
+              unfold hstoPick at hp
+              split at hp
+              · cases hp
+              · rename_i hl
+                split at hp
+                · rename_i hso
+                  have hsop : opAt cs.code cs.st.pc = 0x54 ∨ opAt cs.code cs.st.pc = 0x55 := by
+                    simpa [isStoOp] using hso
+                  exact finish_complete hrel hsat hrun hbb
+                    ((hstoOut_corr hs ho (hsi (hoh hcfg).1) hok hrel hsat rfl hsop hl hp).complete hrel hsat hrun
+                      (hoh hcfg).2 hbb)
+                · cases hp
 
 end
 
